@@ -69,6 +69,23 @@ def sibling_selectors(focus=True, deep=False):
                     yield R.SCall(labs[0], (R.cap("p", "p0"),), (s1, s2))
 
 
+def value_selectors(focus=True):
+    """Selectors that capture a return value: r(ctx, s1() as r1, s2(!v)) (the `as` inside the
+    parentheses is a plain capture) and the rooted form `r(ctx) > s() as r` (focus)."""
+    for labs in canonical_labelings(3):
+        for rc in CTX:
+            rcaps = (R.cap(rc, rc + "0"),) if rc else ()
+            s1 = R.SCall(labs[1], (R.cap("#value", "r1"),), ())
+            for fv in ("p", "q"):
+                s2 = R.SCall(labs[2], (R.cap(fv, fv + "2", focus=focus),), ())
+                yield R.SCall(labs[0], rcaps, (s1, s2))
+    if focus:
+        for labs in canonical_labelings(2):
+            for rc in CTX:
+                rcaps = (R.cap(rc, rc + "0"),) if rc else ()
+                yield R.SCall(labs[0], rcaps, (R.SCall(labs[1], (R.cap("#value", "r1", focus=True),), ()),))
+
+
 _WORLD = None
 
 
@@ -85,7 +102,9 @@ def reset_tree_world():
 
 
 def check_static(tree, trace):
-    if trace != CT.static_trace(tree):
+    # return values may legitimately be overridden by the probes under test: compared without them
+    strip = lambda tr: [e for e in tr if not (e[0] == "bind" and e[2] == "#value")]
+    if strip(trace) != strip(CT.static_trace(tree)):
         raise HarnessError(f"runtime trace of {CT.describe(tree)} differs from the tree's own structure")
 
 
